@@ -492,3 +492,36 @@ func verifH_C20_sharing() {
 	verifExercise([]byte(text), false)
 	verifReach("end")
 }
+
+//verif:harness id=C20 tier=quick,thorough witness=end,loaded steps=20000000 bounds="names that are the empty string (and the single characters /, {, }, #, ~, %, a blank) as the key of each name-keyed map of a document: paths, responses, callbacks and their expressions, content, encoding, headers, examples, links, properties, discriminator mapping, server variables, security requirements, scopes, and the nine component maps (24 positions x 8 keys): load, validate, serialise, internalise, serialise again: no panic"
+func verifH_C20_odd_keys() {
+	verifEntryPoint = 0
+	key := []string{"", "/", "{", "}", "#", "~", "%", " "}[verifChoose("key", 8)]
+	k := func(pos, def string, at int) string {
+		if at == pos2int[pos] {
+			b, _ := json.Marshal(key)
+			return string(b)
+		}
+		return `"` + def + `"`
+	}
+	at := verifChoose("position", len(pos2int))
+	text := `{"openapi":"3.0.0","info":{"title":"t","version":"1"},` +
+		`"servers":[{"url":"https://h.example/{v}","variables":{` + k("variable", "v", at) + `:{"default":"d"}}}],` +
+		`"security":[{` + k("requirement", "sec", at) + `:[]}],` +
+		`"paths":{` + k("path", "/a", at) + `:{"post":{"operationId":"op",` +
+		`"requestBody":{"content":{` + k("content", "application/json", at) + `:{"schema":{"type":"object","properties":{` + k("property", "p", at) + `:{"type":"string"}},` +
+		`"discriminator":{"propertyName":"p","mapping":{` + k("mapping", "m", at) + `:"#/components/schemas/S"}}},` +
+		`"examples":{` + k("example", "e", at) + `:{"value":{}}},"encoding":{` + k("encoding", "p", at) + `:{"headers":{` + k("encHeader", "X-E", at) + `:{"schema":{"type":"string"}}}}}}}},` +
+		`"callbacks":{` + k("callback", "cb", at) + `:{` + k("expression", "{$request.body#/u}", at) + `:{"post":{"responses":{"200":{"description":"d"}}}}}},` +
+		`"responses":{` + k("response", "200", at) + `:{"description":"d","headers":{` + k("header", "X-H", at) + `:{"schema":{"type":"string"}}},"links":{` + k("link", "l", at) + `:{"operationId":"op"}}}}}}},` +
+		`"components":{"schemas":{` + k("cSchema", "S", at) + `:{"type":"string"}},"parameters":{` + k("cParameter", "P", at) + `:{"name":"q","in":"query","schema":{"type":"string"}}},` +
+		`"headers":{` + k("cHeader", "H", at) + `:{"schema":{"type":"string"}}},"requestBodies":{` + k("cBody", "B", at) + `:{"content":{"text/plain":{}}}},` +
+		`"responses":{` + k("cResponse", "R", at) + `:{"description":"d"}},"examples":{` + k("cExample", "E", at) + `:{"value":1}},"links":{` + k("cLink", "L", at) + `:{"operationId":"op"}},` +
+		`"callbacks":{` + k("cCallback", "C", at) + `:{"{$request.body#/u}":{"post":{"responses":{"200":{"description":"d"}}}}}},` +
+		`"securitySchemes":{` + k("cScheme", "sec", at) + `:{"type":"oauth2","flows":{"implicit":{"authorizationUrl":"https://a.example","scopes":{` + k("scope", "s", at) + `:"d"}}}}}}}`
+	verifExercise([]byte(text), false)
+	verifReach("end")
+}
+
+var pos2int = map[string]int{"variable": 0, "requirement": 1, "path": 2, "content": 3, "property": 4, "mapping": 5, "example": 6, "encoding": 7, "encHeader": 8, "callback": 9, "expression": 10,
+	"response": 11, "header": 12, "link": 13, "cSchema": 14, "cParameter": 15, "cHeader": 16, "cBody": 17, "cResponse": 18, "cExample": 19, "cLink": 20, "cCallback": 21, "cScheme": 22, "scope": 23}
